@@ -214,6 +214,38 @@ store offsets itself, otherwise every poll returns the same messages (by design)
 example : offsOf (run { batch := 1, mode := .disabled } 1 .next (Cons.new .next, ⟨5, none⟩)
     [.poll, .poll, .poll, .poll, .poll]).2 = [0] := by decide
 
+/-- **the stored offset was moved back behind this consumer's back** (another member of the group committed
+an older offset of a partition it no longer owns - its background task stores whatever it consumed last):
+under `next` the server then answers with messages this consumer has consumed already. Whatever the client
+believes to be stored (`c.stored` is arbitrary here), the poll stores the consumed offset `l` again and the
+next poll yields `l + 1`: the consumer does not stall. Before the fix the first poll stored nothing when
+`c.stored` already said `l`, and every later poll returned the same consumed messages for ever. -/
+theorem rewound_offset_recovers (cfg : CCfg) (hrep : cfg.replay = false) (hbatch : 1 ≤ cfg.batch)
+    (hauto : cfg.autoCommitEnabled = true) (hpol : cfg.polling = false)
+    (pid : Nat) (c : Cons) (s : Srv) (l : Nat)
+    (hstrat : c.strat = .next) (hc : c.consumed = [(pid, l)]) (hb : c.buffered = [])
+    (hmore : l + 1 < s.len)
+    -- the stored offset lags so far behind that the whole reply is old
+    (hback : min (resume s.stored + cfg.batch) s.len ≤ l + 1) :
+    ∃ r r', (run cfg pid .next (c, s) [.poll, .poll]).2 =
+      [.polled s.stored r, .store l true, .polled (some l) r', .yield ⟨pid, msgAt (l + 1)⟩] := by
+  have hstart : s.start c.strat cfg.batch = resume s.stored := by rw [hstrat]; rfl
+  obtain ⟨r, h1⟩ := poll_going_sync cfg hrep pid .next c s l hc hb (by omega) hbatch
+    (by rw [hstart]; omega) (by rw [hstart]; exact hback) hauto hpol (Or.inr hstrat)
+  obtain ⟨r', h2⟩ := poll_going_obs_yield cfg hrep pid .next
+    { c with curPart := pid, stored := c.stored.set pid l } { s with stored := some l } l hc hb
+    (by simp [hstrat, Srv.start, resume]) (by simp [hstrat, Srv.start, resume]; omega)
+  refine ⟨r, r', ?_⟩
+  simp only [run, h1, h2, List.append_nil, List.cons_append, List.nil_append]
+
+/-- the hypotheses of `rewound_offset_recovers` are met by the history found by the correspondence run
+(`corpus/C20/stale-member-commit.ops`): consumed up to 7, believed stored 7, server moved back to 5 -/
+example : let cfg : CCfg := { batch := 1, mode := .disabled, interval := true }
+    let c : Cons := { strat := .next, consumed := [(2, 7)], stored := [(2, 7)] }
+    let s : Srv := ⟨10, some 5⟩
+    cfg.autoCommitEnabled = true ∧ cfg.polling = false ∧ min (resume s.stored + cfg.batch) s.len ≤ 7 + 1 ∧
+    offsOf (run cfg 2 .next (c, s) [.poll, .poll]).2 = [8] := by decide
+
 /-- a producer call (`chunks` is defined by well-founded recursion, which `decide` does not unfold) -/
 example : ((({ stream := 1, topic := 2, batch := some 2, interval := true, partitioning := none, dflt := 0 } :
     PCfg Nat Nat).requests (.sendTo 7 8 [10, 11, 12] (some 5))).map
